@@ -100,6 +100,7 @@ def execute(mode, cfg, events, collect=None):
 
 
 def run_one(mode, rng, run_index, want_sample=False):
+    mode.run_index = run_index
     cfg = mode.draw(rng)
     if cfg.get("shared"):
         gc.collect()  # leftovers of earlier runs are finalised before this run's clock starts
